@@ -28,6 +28,7 @@ def width_cols(t, wd):
 
 class Check(PropertyCheck):
     id = "C10"
+    thorough_mult = 3
     lean_modules = ["Svgbob.Properties.C10"]
     assumptions = [
         "whole-pipeline model tied to the implementation end to end (bytes)",
@@ -52,7 +53,8 @@ class Check(PropertyCheck):
             else:
                 g = gen.random_grid(self.rng, self.rng.range(1, 14), self.rng.range(1, 7),
                                     gen.DRAW_ASCII + gen.LABEL[:20] + (gen.GLYPHS if self.rng.chance(1, 3) else "")
-                                    + (gen.CJK if self.rng.chance(1, 3) else ""),
+                                    + (gen.CJK if self.rng.chance(1, 3) else "")
+                                    + ("\u0301\u200b\ufe0f" if self.rng.chance(1, 4) else ""),
                                     self.rng.choice([20, 45, 70, 95]))
                 g = clean(g)
                 if g:
